@@ -232,7 +232,9 @@ def _parse_unauthorized(content: bytes) -> AuthenticationError:
 
     """
     payload: object = None
-    with contextlib.suppress(ValueError):
+    # RecursionError: a pathologically nested body (a hostile or broken
+    # intermediary) must degrade like any other non-envelope body.
+    with contextlib.suppress(ValueError, RecursionError):
         payload = json.loads(content)
     if isinstance(payload, dict):
         raw_reason = str(payload.get("reason", ""))
